@@ -15,6 +15,7 @@ void run_s2(const std::string& op, const std::string& fam, const MeshIn& in, Cur
   if(fam == "D1") { Ops<ShapeT, FamD1>::run(op, cx, c, o); return; }
   if(fam == "CR") { Ops<ShapeT, FamCR>::run(op, cx, c, o); return; }
   if(fam == "PB") { Ops<ShapeT, FamPB>::run(op, cx, c, o); return; }
+  if(fam == "HE") { Ops<ShapeT, FamHE>::run(op, cx, c, o); return; }
   o << "UNSUPPORTED";
 }
 }
